@@ -11,8 +11,9 @@
      - wfs (Spec.wfb per field): the field is writable in a file of its own
        without merging two of its own constructs (pairwise different dimension
        coordinates and auxiliary coordinates, references name existing
-       constructs); C09_wf_guard_needed shows the conclusion failing without
-       it (single-file matter, C01);
+       constructs); single-file matter (C01; Refuted.v
+       C09_old_equal_dimcoords_collapse_refuted is what the code before
+       /repo commit a6b4a67 did to a field outside it);
      - ft_conflict = false: no two fields hold one coordinate variable while
        wanting different formula_terms on it: open finding F09d/F09e,
        C09_formula_terms_leak_refuted, C09_formula_terms_order_refuted. *)
@@ -126,8 +127,7 @@ Theorem C09_order_invariance :
 Proof. exact order_invariance. Qed.
 Print Assumptions C09_order_invariance.
 
-(* Non-vacuity of the two guards (with real sharing), and a witness that the
-   well-formedness guard cannot be dropped. *)
+(* Non-vacuity of the two guards (with real sharing). *)
 Theorem C09_composition_example :
   wfs [wA; wA; wB] /\ ft_conflict true [wA; wA; wB] = false /\
   (length (vt (fst (write_fields true [wA; wA; wB] st0))) <
@@ -135,10 +135,28 @@ Theorem C09_composition_example :
 Proof. exact composition_example. Qed.
 Print Assumptions C09_composition_example.
 
-Theorem C09_wf_guard_needed :
-  wfb wH = false /\ exists o, In o (snd (write_fields true [wH] st0)) /\ ~ NoDup (o_dims o).
-Proof. exact wf_guard_needed. Qed.
-Print Assumptions C09_wf_guard_needed.
+(* Compression variables (list variable of a gathered field, count / index
+   variable of a ragged field), repaired rule (C09-fix3-1,2,3): for every list
+   of fields in every order, the compression variable a field ends up with -
+   its own or one shared with an earlier field - holds the field's own values
+   and refers to the field's own netCDF dimensions (compress attribute /
+   instance dimension). *)
+Theorem C09_compression_variable_own :
+  forall cfs st xs, write_cfields true cfs st0 = (st, xs) -> Forall2 (cvar_own st) cfs xs.
+Proof. exact compression_variable_own. Qed.
+Print Assumptions C09_compression_variable_own.
+
+(* ... so such a variable is shared only between fields for which it means
+   the same thing: equal values and the same dimensions. *)
+Theorem C09_compression_shared_same_meaning :
+  forall cfs st xs i j cf1 cf2 x1 x2 cs1 cs2 v,
+  write_cfields true cfs st0 = (st, xs) ->
+  nth_error cfs i = Some cf1 -> nth_error xs i = Some x1 ->
+  nth_error cfs j = Some cf2 -> nth_error xs j = Some x2 ->
+  cf_c cf1 = Some cs1 -> cf_c cf2 = Some cs2 -> snd x1 = Some v -> snd x2 = Some v ->
+  ctok (ccomp cs1) = ctok (ccomp cs2) /\ meaning cs1 (o_dims (fst x1)) = meaning cs2 (o_dims (fst x2)).
+Proof. exact compression_shared_same_meaning. Qed.
+Print Assumptions C09_compression_shared_same_meaning.
 
 (* Open finding F09d: two fields share a coordinate variable, only one of them
    has formula terms: the other one reads them back as its own. *)
